@@ -9,7 +9,32 @@
   No Mathlib import here: the driver must link as a `lean_exe`.
 -/
 
+/-- Constant expressions.  palette writes constants as `T::from_f64(<f64 const expr>)`: the expression is
+    evaluated in `f64` and only then converted to `T`.  `K` keeps the expression so that `Float32` can do exactly
+    that (no second-guessing of thresholds by an ulp), while `ℝ` reads it as the exact rational. -/
+inductive K where
+  | lit (m : Nat) (s : Bool) (e : Nat)
+  | add (a b : K) | sub (a b : K) | mul (a b : K) | div (a b : K) | neg (a : K)
+
+instance : OfScientific K := ⟨K.lit⟩
+instance : Add K := ⟨K.add⟩
+instance : Sub K := ⟨K.sub⟩
+instance : Mul K := ⟨K.mul⟩
+instance : Div K := ⟨K.div⟩
+instance : Neg K := ⟨K.neg⟩
+
+/-- generic reading of a constant expression -/
+def K.eval {α : Type} [Add α] [Sub α] [Mul α] [Div α] [Neg α] [OfScientific α] : K → α
+  | .lit m s e => OfScientific.ofScientific m s e
+  | .add a b => a.eval + b.eval
+  | .sub a b => a.eval - b.eval
+  | .mul a b => a.eval * b.eval
+  | .div a b => a.eval / b.eval
+  | .neg a => - a.eval
+
 class Scalar (α : Type) extends Add α, Sub α, Mul α, Div α, Neg α, LT α, LE α, OfScientific α where
+  /-- `T::from_f64(k)` -/
+  const : K → α
   abs : α → α
   sqrt : α → α
   cbrt : α → α
@@ -44,6 +69,12 @@ instance {α} [Scalar α] (a b : α) : Decidable (eqv a b) := by unfold eqv; exa
 def clamp {α} [Scalar α] (v lo hi : α) : α :=
   if v < lo then lo else if hi < v then hi else v
 
+/-- `MulAdd::mul_add(self, m, a)` = `self * m + a`; fused for f32/f64 with `std` (one rounding instead of two):
+    the correspondence tolerance covers the difference, the exact reading is the same. -/
+def mulAdd {α} [Scalar α] (x m a : α) : α := x * m + a
+/-- `MulSub::mul_sub(self, m, s)` = `self * m - s` -/
+def mulSub {α} [Scalar α] (x m s : α) : α := x * m - s
+
 def clampMin {α} [Scalar α] (v lo : α) : α := Scalar.max v lo   -- `f32::max`
 def clampMax {α} [Scalar α] (v hi : α) : α := Scalar.min v hi   -- `f32::min`
 end Scalar
@@ -57,6 +88,7 @@ def Float.isNormalB (x : Float) : Bool :=
   e != 0 && e != 0x7ff
 
 instance : Scalar Float where
+  const := K.eval
   abs := Float.abs
   sqrt := Float.sqrt
   cbrt := Float.cbrt
@@ -84,6 +116,9 @@ def Float32.isNormalB (x : Float32) : Bool :=
   e != 0 && e != 0xff
 
 instance : Scalar Float32 where
+  -- `T::from_f64(x)` is `x as f32`: literals and constant expressions are evaluated in f64 first
+  ofScientific := fun m s e => (Float.ofScientific m s e).toFloat32
+  const := fun k => (K.eval (α := Float) k).toFloat32
   abs := Float32.abs
   sqrt := Float32.sqrt
   cbrt := Float32.cbrt
